@@ -2569,13 +2569,64 @@ def llx_h_grid(s1, s2, K, j):
 
 
 @hint(LLX, when='entry')
+def llx_h_abscissae(s1, s2, K, j):
+    """the abscissae the pieces read are the same terms in both objects (congruence only; keeps the piece equalities below
+    from depending on the solver finding the chain bl(s2) = bl(s1) -> xr(s2, K, bl(s2)) = xr(s1, K, bl(s1)) by itself)"""
+    return (x_bl(s2, K) == x_bl(s1, K) and x_wl(s2, K) == x_wl(s1, K) and x_wr(s2, K) == x_wr(s1, K) and x_br(s2, K) == x_br(s1, K)
+            and s2.exp == s1.exp)
+
+
+@hint(LLX, when='entry')
 def llx_h_borders(s1, s2, K, j):
     return (z0a(s2, K) == z0a(s1, K) and z0a(s2, K + 1) == z0a(s1, K + 1) and zlba(s2, K) == zlba(s1, K) and zrba(s2, K) == zrba(s1, K))
 
 
+@opaque
+def lexy_o(x, x0, y0, x1, y1, al):
+    """lexy behind an uninterpreted symbol: equal arguments give equal values by congruence, without the power terms being looked at"""
+    return lexy(x, x0, y0, x1, y1, al)
+
+
+@opaque
+def elin_o(x, x0, y0, x1, y1, al):
+    return elin(x, x0, y0, x1, y1, al)
+
+
+def pieces_unfolded(s, K, j):
+    return (fa1(s, K, j) == lf(xe(s, K, j), xe(s, K, 0), z0a(s, K), x_bl(s, K), zlba(s, K))
+            and fa2(s, K, j) == lexy_o(xe(s, K, j), x_bl(s, K), zlba(s, K), x_wl(s, K), ye(s, K), s.exp)
+            and fa4(s, K, j) == elin_o(xe(s, K, j), x_wr(s, K), ye(s, K), x_br(s, K), zrba(s, K), s.exp)
+            and fa5(s, K, j) == lf(xe(s, K, j), x_br(s, K), zrba(s, K), xe(s, K + 1, 0), z0a(s, K + 1)))
+
+
 @hint(LLX, when='entry')
-def llx_h_pieces(s1, s2, K, j):
-    return (fa1(s2, K, j) == fa1(s1, K, j) and fa2(s2, K, j) == fa2(s1, K, j) and fa4(s2, K, j) == fa4(s1, K, j) and fa5(s2, K, j) == fa5(s1, K, j))
+def llx_h_unfold1(s1, s2, K, j):
+    return pieces_unfolded(s1, K, j)
+
+
+@hint(LLX, when='entry')
+def llx_h_unfold2(s1, s2, K, j):
+    return pieces_unfolded(s2, K, j)
+
+
+@hint(LLX, when='entry')
+def llx_h_piece1(s1, s2, K, j):
+    return fa1(s2, K, j) == fa1(s1, K, j)
+
+
+@hint(LLX, when='entry')
+def llx_h_piece2(s1, s2, K, j):
+    return fa2(s2, K, j) == fa2(s1, K, j)
+
+
+@hint(LLX, when='entry')
+def llx_h_piece4(s1, s2, K, j):
+    return fa4(s2, K, j) == fa4(s1, K, j)
+
+
+@hint(LLX, when='entry')
+def llx_h_piece5(s1, s2, K, j):
+    return fa5(s2, K, j) == fa5(s1, K, j)
 
 
 @ensures(LLX)
@@ -2945,3 +2996,109 @@ def leax_h_blend_right(s1, s2, al, be, K, j):
 def leax_commutes(s1, s2, al, be, K, j):
     """C07: y -> al*y + be (al != 0) commutes with ExpAdaptiveRFA on intervals with two neighbours on each side, for every exponent"""
     return fea(s2, K, j) == al * fea(s1, K, j) + be
+
+
+# ---- C07: change of units of the time axis for ExpAdaptiveRFA
+
+LEXX = 'lemma:rfa.exp_adaptive.equivariance_x'
+contract(LEXX, params=dict(s1=Obj(EXPA), s2=Obj(EXPA), c=Real, d=Real, K=Int, j=Int), lemma=True, no_rt=True)
+
+
+@requires(LEXX)
+def lexx_pre(s1, s2, c, d, K, j):
+    return (expa_wf(s1) and expa_wf(s2) and same_setup_x(s1, s2) and interior(s1, K, j) and c > 0 and 2 <= K and K <= len(s1.x) - 2
+            and forall(range(len(s1.x)), lambda i: s2.y[i] == s1.y[i] and s2.x[i] == c * s1.x[i] + d))
+
+
+@hint(LEXX, when='entry')
+def lexx_h_averages(s1, s2, c, d, K, j):
+    return lexa_h_averages(s1, s2, c, d, K, j)
+
+
+@hint(LEXX, when='entry')
+def lexx_h_jumps(s1, s2, c, d, K, j):
+    return lexa_h_jumps(s1, s2, c, d, K, j)
+
+
+@hint(LEXX, when='entry')
+def lexx_h_windows(s1, s2, c, d, K, j):
+    return (wl(s2, K) == wl(s1, K) and wr(s2, K) == wr(s1, K) and wr(s2, K - 1) == wr(s1, K - 1) and wl(s2, K + 1) == wl(s1, K + 1)
+            and bl(s2, K) == bl(s1, K) and br(s2, K) == br(s1, K))
+
+
+@hint(LEXX, when='entry')
+def lexx_h_window_bounds(s1, s2, c, d, K, j):
+    return lbx_h_windows(s1, K, j)
+
+
+@hint(LEXX, when='entry')
+def lexx_h_order(s1, s2, c, d, K, j):
+    return lbx_h_order(s1, K, j)
+
+
+@hint(LEXX, when='entry')
+def lexx_h_order_j(s1, s2, c, d, K, j):
+    return lbx_h_order_j(s1, K, j)
+
+
+@hint(LEXX, when='entry')
+def lexx_h_distinct(s1, s2, c, d, K, j):
+    return (implies(wr(s1, K - 1) >= 1 or wl(s1, K) >= 1, x_pl(s1, K) < x_wl(s1, K))
+            and implies(wr(s1, K) >= 1 or wl(s1, K + 1) >= 1, x_pl(s1, K + 1) < x_wl(s1, K + 1))
+            and implies(bl(s1, K) >= 1, xe(s1, K, 0) < x_wl(s1, K)) and implies(br(s1, K) >= 1, x_wr(s1, K) < xe(s1, K + 1, 0)))
+
+
+@hint(LEXX, when='entry')
+def lexx_h_grid(s1, s2, c, d, K, j):
+    return (xe(s2, K, j) == c * xe(s1, K, j) + d and xe(s2, K, 0) == c * xe(s1, K, 0) + d and xe(s2, K + 1, 0) == c * xe(s1, K + 1, 0) + d
+            and x_bl(s2, K) == c * x_bl(s1, K) + d and x_wl(s2, K) == c * x_wl(s1, K) + d
+            and x_wr(s2, K) == c * x_wr(s1, K) + d and x_br(s2, K) == c * x_br(s1, K) + d
+            and x_pl(s2, K) == c * x_pl(s1, K) + d and x_pl(s2, K + 1) == c * x_pl(s1, K + 1) + d and x_wl(s2, K + 1) == c * x_wl(s1, K + 1) + d
+            and s2.exp == s1.exp)
+
+
+@hint(LEXX, when='entry')
+def lexx_h_ratio_borders(s1, s2, c, d, K, j):
+    return (implies(wr(s1, K - 1) >= 1 or wl(s1, K) >= 1,
+                    same_ratios(xe(s2, K, 0), x_pl(s2, K), x_wl(s2, K), xe(s1, K, 0), x_pl(s1, K), x_wl(s1, K)))
+            and implies(wr(s1, K) >= 1 or wl(s1, K + 1) >= 1,
+                        same_ratios(xe(s2, K + 1, 0), x_pl(s2, K + 1), x_wl(s2, K + 1), xe(s1, K + 1, 0), x_pl(s1, K + 1), x_wl(s1, K + 1))))
+
+
+@hint(LEXX, when='entry')
+def lexx_h_borders(s1, s2, c, d, K, j):
+    return z0a(s2, K) == z0a(s1, K) and z0a(s2, K + 1) == z0a(s1, K + 1)
+
+
+@hint(LEXX, when='entry')
+def lexx_h_ratio_breaks(s1, s2, c, d, K, j):
+    return (implies(bl(s1, K) >= 1, same_ratios(x_bl(s2, K), xe(s2, K, 0), x_wl(s2, K), x_bl(s1, K), xe(s1, K, 0), x_wl(s1, K)))
+            and implies(br(s1, K) >= 1, same_ratios(x_br(s2, K), x_wr(s2, K), xe(s2, K + 1, 0), x_br(s1, K), x_wr(s1, K), xe(s1, K + 1, 0))))
+
+
+@hint(LEXX, when='entry')
+def lexx_h_breaks(s1, s2, c, d, K, j):
+    return zlba(s2, K) == zlba(s1, K) and zrba(s2, K) == zrba(s1, K)
+
+
+@hint(LEXX, when='entry')
+def lexx_h_ratio_pieces(s1, s2, c, d, K, j):
+    return (implies(j < bl(s1, K), same_ratios(xe(s2, K, j), xe(s2, K, 0), x_bl(s2, K), xe(s1, K, j), xe(s1, K, 0), x_bl(s1, K)))
+            and implies(bl(s1, K) <= j and j < wl(s1, K), same_ratios(xe(s2, K, j), x_bl(s2, K), x_wl(s2, K), xe(s1, K, j), x_bl(s1, K), x_wl(s1, K)))
+            and implies(s1.n - wr(s1, K) <= j and j < s1.n - br(s1, K),
+                        same_ratios(xe(s2, K, j), x_wr(s2, K), x_br(s2, K), xe(s1, K, j), x_wr(s1, K), x_br(s1, K)))
+            and implies(s1.n - br(s1, K) <= j, same_ratios(xe(s2, K, j), x_br(s2, K), xe(s2, K + 1, 0), xe(s1, K, j), x_br(s1, K), xe(s1, K + 1, 0))))
+
+
+@hint(LEXX, when='entry')
+def lexx_h_pieces(s1, s2, c, d, K, j):
+    return (implies(j < bl(s1, K), fa1(s2, K, j) == fa1(s1, K, j))
+            and implies(bl(s1, K) <= j and j < wl(s1, K), fa2(s2, K, j) == fa2(s1, K, j))
+            and implies(s1.n - wr(s1, K) <= j and j < s1.n - br(s1, K), fa4(s2, K, j) == fa4(s1, K, j))
+            and implies(s1.n - br(s1, K) <= j, fa5(s2, K, j) == fa5(s1, K, j)))
+
+
+@ensures(LEXX)
+def lexx_commutes(s1, s2, c, d, K, j):
+    """C07: x -> c*x + d (c > 0) before recreation with ExpAdaptiveRFA: same values on the mapped grid (two neighbours on each side)"""
+    return fea(s2, K, j) == fea(s1, K, j) and xe(s2, K, j) == c * xe(s1, K, j) + d
